@@ -402,3 +402,72 @@ pub fn bulk_quads(n: usize, salt: u64, with_graphs: bool) -> Vec<MQ> {
         })
         .collect()
 }
+
+
+/// Well-formedness of a language tag per RFC 5646 section 2.1 (`Language-Tag` production: langtag,
+/// privateuse or one of the grandfathered tags), case-insensitive. Independent of the toolkit's
+/// own validator: used to tell a tag that *must* be accepted from one that may be excluded.
+pub fn bcp47_well_formed(tag: &str) -> bool {
+    let t = tag.to_ascii_lowercase();
+    const GRANDFATHERED: &[&str] = &[
+        "en-gb-oed", "i-ami", "i-bnn", "i-default", "i-enochian", "i-hak", "i-klingon", "i-lux", "i-mingo", "i-navajo", "i-pwn", "i-tao", "i-tay", "i-tsu", "sgn-be-fr", "sgn-be-nl", "sgn-ch-de",
+        "art-lojban", "cel-gaulish", "no-bok", "no-nyn", "zh-guoyu", "zh-hakka", "zh-min", "zh-min-nan", "zh-xiang",
+    ];
+    if GRANDFATHERED.contains(&t.as_str()) {
+        return true;
+    }
+    let subs: Vec<&str> = t.split('-').collect();
+    if subs.iter().any(|s| s.is_empty() || s.len() > 8 || !s.chars().all(|c| c.is_ascii_alphanumeric())) {
+        return false;
+    }
+    let alpha = |s: &str| s.chars().all(|c| c.is_ascii_alphabetic());
+    let digit = |s: &str| s.chars().all(|c| c.is_ascii_digit());
+    let privateuse = |subs: &[&str]| subs.len() >= 2 && subs[0] == "x";
+    if subs[0] == "x" {
+        return privateuse(&subs);
+    }
+    // language
+    let mut i = 0;
+    let l = subs[0];
+    if !alpha(l) || l.len() < 2 {
+        return false;
+    }
+    i += 1;
+    if l.len() <= 3 {
+        // up to three extlang subtags (3ALPHA each)
+        let mut k = 0;
+        while k < 3 && i < subs.len() && subs[i].len() == 3 && alpha(subs[i]) {
+            i += 1;
+            k += 1;
+        }
+    }
+    // script
+    if i < subs.len() && subs[i].len() == 4 && alpha(subs[i]) {
+        i += 1;
+    }
+    // region
+    if i < subs.len() && ((subs[i].len() == 2 && alpha(subs[i])) || (subs[i].len() == 3 && digit(subs[i]))) {
+        i += 1;
+    }
+    // variants
+    while i < subs.len() && ((subs[i].len() >= 5) || (subs[i].len() == 4 && subs[i].chars().next().unwrap().is_ascii_digit())) {
+        i += 1;
+    }
+    // extensions
+    while i < subs.len() && subs[i].len() == 1 && subs[i] != "x" {
+        i += 1;
+        let mut n = 0;
+        while i < subs.len() && subs[i].len() >= 2 {
+            i += 1;
+            n += 1;
+        }
+        if n == 0 {
+            return false;
+        }
+    }
+    // private use
+    if i < subs.len() {
+        return privateuse(&subs[i..]);
+    }
+    true
+}
